@@ -346,6 +346,41 @@ PROP.rule += (" pool-timeout layer: 1-2 holders keep every connection of the poo
               "Oracle: PoolTimeout exactly at t0+p (+-1 ms of virtual time), never after a network op of that request, a served waiter got its connection no "
               "later than t0+p, the pool forgets every finished request. Non-trivial: a waiter timed out or actually waited.")
 
+
+# ----------------------------------------------------------------------------- retried connection attempts keep the request's connect timeout
+
+def retry_attempt_cases(tier):
+    from . import c20
+
+    out = []
+    for case in c20._quick_cases(tier):
+        n_fail = sum(1 for a in case["attempts"] if a != "ok" and a.split(":")[1] in c20.RETRYABLE)
+        if case["retries"] >= 1 and n_fail >= 1 and case.get("connect_timeout") is not None and case.get("exchange") is None:
+            out.append(case)
+    return out
+
+
+def execute_retry_attempts(case) -> Outcome:
+    from . import c20
+
+    vio = []
+    for sync in (True, False):
+        world, out = c20.run_one(case, sync)
+        want = case["connect_timeout"]
+        for op in world.trace:
+            if op["kind"] in ("connect", "start_tls") and op.get("timeout") != want:
+                vio.append(V(P, "wrong-timeout", f"[{'sync' if sync else 'async'}] retries={case['retries']} attempts={case['attempts']} ({case['transport']}, "
+                             f"{'TLS' if case['tls'] else 'plain'}): attempt op #{op['seq']} {op['kind']} was issued with timeout {op.get('timeout')}, the request's connect timeout is {want}",
+                             conn="retry-" + case["transport"], key="connect", op=op["kind"]))
+                break
+    n_attempts = sum(1 for a in case["attempts"] if a != "ok") + 1
+    return Outcome(vio[:2], ["retry-attempts", f"retries={case['retries']}", case["transport"], "tls" if case["tls"] else "plain"], n_attempts >= 2)
+
+
+PROP.layers.append(Layer("retry-attempts", cases=retry_attempt_cases, execute=execute_retry_attempts))
+PROP.rule += (" retry-attempts layer (enumerated): every sequence of retryable connect / TLS failures for retries 1-4 over TCP and Unix sockets with a connect timeout "
+              "configured: every attempt, not only the first, must be issued with the request's connect timeout.")
+
 from .real import layer_for as _real_layer  # noqa: E402
 
 from .real import make_execute as _real_execute, stall_matrix as _stall_matrix  # noqa: E402
